@@ -335,6 +335,33 @@ let handlers : (string * (string list -> string -> verdict)) list = [
                  && (match pairs with [] -> true | (_, q0) :: tl -> L.for_all (fun (_, q) -> q = q0) tl) in
       { model = m; spec_ok = Some spec; nontrivial = rs <> [] }
     | _ -> failwith "args");
+  "gc", (fun args impl -> match args with
+    | [op; target; sent; count; spec] ->
+      let open Gc in
+      let st_of n = (match n with 0 -> Disposed | 1 -> Loading | 2 -> Loaded | 3 -> Ready | 4 -> ToSend | 5 -> Sent | _ -> Deleted) in
+      let st_to s = (match s with Disposed -> 0 | Loading -> 1 | Loaded -> 2 | Ready -> 3 | ToSend -> 4 | Sent -> 5 | Deleted -> 6) in
+      let g = L.map (fun nd -> match S.split_on_char ',' nd with
+        | [d; i; s; st; refs; pr] ->
+          { direct = z_of_int (int_of_string d); indirect = z_of_int (int_of_string i); isent = z_of_int (int_of_string s);
+            st = st_of (int_of_string st);
+            refs = L.map (fun x -> nat_of_int (int_of_string x)) (L.filter (fun x -> x <> "") (S.split_on_char '+' refs));
+            present = (pr = "1") }
+        | _ -> failwith "gc node") (S.split_on_char '|' spec) in
+      let g' = remove_count g (nat_of_int (int_of_string target)) (op = "direct") (sent = "1") (z_of_int (int_of_string count)) true in
+      let m = S.concat "|" (L.map (fun n ->
+        if n.present then Printf.sprintf "%d,%d,%d,%d,1" (int_of_z n.direct) (int_of_z n.indirect) (int_of_z n.isent) (st_to n.st) else "gone") g') in
+      (* spec on the implementation's own output (Gc.try_delete_keeps_direct): a directly subscribed node that the operation
+         did not target keeps its registration and state *)
+      let outs = S.split_on_char '|' impl in
+      let tgt = int_of_string target in
+      let spec_ok = (L.length outs = L.length g) && L.for_all (fun x -> x)
+        (L.mapi (fun i (n, o) ->
+           if i = tgt || not n.present || int_of_z n.direct <= 0 then true else
+           match S.split_on_char ',' o with
+           | [d; _; _; st; _] -> int_of_string d = int_of_z n.direct && int_of_string st = st_to n.st
+           | _ -> false) (L.combine g outs)) in
+      { model = m; spec_ok = Some spec_ok; nontrivial = L.exists (fun n -> n.refs <> []) g }
+    | _ -> failwith "args");
   "adapter_events", (fun args impl -> match args with
     | [published] ->
       (* every published event delivered, in order, nothing after Unsubscribe, over-long namespace refused *)
